@@ -326,3 +326,83 @@ Proof.
     (img & g & H1 & H2 & _ & H3 & _ & _ & _ & H4 & H5); [vm_compute; lia|exact Hsz|].
   exists img, g. repeat split; try assumption. apply (H5 5%nat). vm_compute. lia.
 Qed.
+
+(* ===================================================================================================================
+   THE BYTE HYPOTHESIS DISCHARGED (Proofs/EncBytesP.v).  Statements only.
+   =================================================================================================================== *)
+From ACPI Require Import Proofs.EncBytesP.
+
+(* c13_dsdt_composition asks that the encoder's output b consists of bytes -- a fact about the encoder, not about the
+   caller.  Proofs/EncBytesP.v proves it from a hypothesis on the caller's tree alone: [typed t] says that every constructor
+   argument the encoder copies into its output unreduced lies in the range of its Rust type (u8 arguments < 256, bool
+   arguments <= 1, Field access < 16 / lock <= 1 / update < 4, AddressSpace type <= 2, and every string, name text, field
+   name and BufferData made of bytes); it is a decidable check (typed t is typedb t = true).
+   Same conclusion as c13_dsdt_composition, with [bytes_ok b = true] replaced by [typed t]. *)
+Theorem c13_dsdt_composition_typed :
+  forall env t md b v0,
+    wf env false t -> typed t -> enc md t = Some b ->
+    (36 <= length v0)%nat -> N.of_nat (length v0 + length b) < 2 ^ 32 ->
+    exists img g,
+      sdt_sink_vec md v0 b = Some img /\ sdt_append_slice md v0 b = Some img /\
+      length img = (length v0 + length b)%nat /\ sum8 img = 0 /\ field_at img 4 4 = N.of_nat (length img) /\
+      skipn (length v0) img = b /\
+      (forall i, (i < length v0)%nat -> i <> 9%nat -> ~ (4 <= i < 8)%nat -> nth i img 0 = nth i v0 0) /\
+      norm false t = Some g /\
+      forall f, (depth t < f)%nat -> parse env f false (skipn (length v0) img) = Some (g, []).
+Proof.
+  intros env t md b v0 Hwf Ht He.
+  exact (c13_dsdt_composition env t md b v0 Hwf He (enc_bytes_ok md t b Ht He)).
+Qed.
+
+(* the same for a whole TermList as the body: every term of the list typed *)
+Theorem c13_dsdt_body_composition_typed :
+  forall env ks md b v0,
+    Forall (wf env false) ks -> Forall typed ks -> encs md ks = Some b -> b <> [] ->
+    (36 <= length v0)%nat -> N.of_nat (length v0 + length b) < 2 ^ 32 ->
+    exists img gs,
+      sdt_sink_vec md v0 b = Some img /\ sdt_append_slice md v0 b = Some img /\
+      (forall tr, flatten tr = b -> run_sdt md v0 tr = Some img) /\
+      length img = (length v0 + length b)%nat /\ sum8 img = 0 /\ field_at img 4 4 = N.of_nat (length img) /\
+      skipn (length v0) img = b /\
+      norms false ks = Some gs /\
+      forall f, (depths ks < f)%nat ->
+        parse_all (parse env f) (length img - length v0) false (skipn (length v0) img) = Some gs.
+Proof.
+  intros env ks md b v0 Hwf Ht He.
+  exact (c13_dsdt_body_composition env ks md b v0 Hwf He (encs_bytes_ok md ks b Ht He)).
+Qed.
+
+Print Assumptions c13_dsdt_composition_typed.
+Print Assumptions c13_dsdt_body_composition_typed.
+
+(* non-vacuity: the DSDT demo term is typed (and so is it as a one-element TermList) ... *)
+Example c13_dsdt_term_typed : typed c13_dsdt_term /\ Forall typed [c13_dsdt_term].
+Proof. split; [|constructor; [|constructor]]; vm_compute; reflexivity. Qed.
+
+(* ... so the theorem applies to it in both profiles with no hypothesis about the encoder's output left *)
+Example c13_dsdt_demo_applies_typed : forall md b,
+  enc md c13_dsdt_term = Some b -> N.of_nat (length c13_v36 + length b) < 2 ^ 32 ->
+  exists img g, sdt_sink_vec md c13_v36 b = Some img /\ sdt_append_slice md c13_v36 b = Some img /\ sum8 img = 0 /\
+                norm false c13_dsdt_term = Some g /\ parse (fun _ => O) 5 false (skipn 36 img) = Some (g, []).
+Proof.
+  intros md b He Hsz.
+  destruct (c13_dsdt_composition_typed (fun _ => O) c13_dsdt_term md b c13_v36 c13_dsdt_term_wf (proj1 c13_dsdt_term_typed) He) as
+    (img & g & H1 & H2 & _ & H3 & _ & _ & _ & H4 & H5); [vm_compute; lia|exact Hsz|].
+  exists img, g. repeat split; try assumption. apply (H5 5%nat). vm_compute. lia.
+Qed.
+
+(* the hypothesis cannot simply be dropped: a well-formed tree with a 300 inside a string is encoded to a list that is
+   not a byte list, and the Sdt sink refuses it where append_slice (which never looks at the values) does not *)
+Example c13_typed_needed :
+  let t := TName [95; 83; 84; 82] (TStr [300]) in
+  wf (fun _ => O) false t /\ ~ typed t /\
+  match enc Checked t with
+  | Some b => bytes_ok b = false /\ sdt_sink_vec Checked c13_v36 b <> sdt_append_slice Checked c13_v36 b
+  | None => False
+  end.
+Proof.
+  split; [|split].
+  - cbn [wf]. split; [eexists; split; [vm_compute; reflexivity|repeat constructor]|repeat constructor; discriminate].
+  - vm_compute. discriminate.
+  - vm_compute. split; [reflexivity|discriminate].
+Qed.
